@@ -492,3 +492,46 @@ func c12CounterInit() int {
 	}
 	return val
 }
+
+// c12LiteralTids lists every call in the tree (non-test files) that evaluates ECAL code with an
+// integer LITERAL as the thread id: Runtime.Eval(vs, is, <lit>) or an ECALFunction's
+// Run(instanceID, vs, is, <lit>, args). A thread id must come from the pool's generator.
+func c12LiteralTids() ([]string, error) {
+	files, err := c12AllFiles()
+	if err != nil {
+		return nil, err
+	}
+	var out []string
+	for _, cf := range files {
+		for _, d := range cf.file.Decls {
+			fd, ok := d.(*ast.FuncDecl)
+			if !ok || fd.Body == nil {
+				continue
+			}
+			ast.Inspect(fd.Body, func(n ast.Node) bool {
+				c, ok := n.(*ast.CallExpr)
+				if !ok {
+					return true
+				}
+				sel, ok := c.Fun.(*ast.SelectorExpr)
+				if !ok {
+					return true
+				}
+				pos := -1
+				switch {
+				case sel.Sel.Name == "Eval" && len(c.Args) == 3:
+					pos = 2
+				case sel.Sel.Name == "Run" && len(c.Args) == 5:
+					pos = 3
+				}
+				if pos >= 0 {
+					if lit, ok := c.Args[pos].(*ast.BasicLit); ok && lit.Kind == token.INT {
+						out = append(out, c12FuncName(cf.dir, fd)+":"+lit.Value)
+					}
+				}
+				return true
+			})
+		}
+	}
+	return out, nil
+}
